@@ -11,6 +11,8 @@ import PFV.Proofs.Cleanup
 import PFV.Proofs.BodyFacts
 import PFV.Proofs.ArbLawful
 import PFV.Proofs.MutFacts
+import PFV.Proofs.GenTotal
+import PFV.Proofs.GenRun
 namespace PFV
 open Ref (RKind RState RMemo)
 
@@ -534,4 +536,82 @@ theorem typeconfusion (hE : Lawful E) (u : Bool) (first : Option UInt8) (s : σ)
   typeconfusion_contract E hE u first s rate r s' h
 
 end C16
+end PFV
+
+namespace PFV
+
+/-! ## C09 — totality -/
+namespace C09
+
+/-- **C09 on the exact model.**  For every lawful entropy source `E` (any PRNG, any fuzzer bytes,
+exhausted input included — `C18.arb_lawful`), every protocol 0–5, every opcode range up to 2^63
+(inverted and zero included), every mutator list, every rate bit pattern (NaN included) and all
+flags, with a non-empty module table: generation returns `Ok` with a non-empty byte string.
+None of the modelled panic sites (`opcodes[idx]`, `int_like[idx]`, `keys[..]`, `modules[idx]`,
+`boundaries[..]`, `different_types[..]`, `chars[idx]`, `result[idx]`, `value[..new_len]`,
+`unreachable!`) is reachable, and the loops are structural recursions / fuelled by the stack
+length (`Proofs/Cleanup.lean` shows the fuel suffices). -/
+theorem total {σ} (E : Entropy σ) (X : G.Ext) (c : Cfg) (hE : Lawful E) (hmods : X.mods ≠ [])
+    (hv : c.version < 6) (hmin : c.minOps ≤ 2 ^ 63) (hmax : c.maxOps ≤ 2 ^ 63) (s : σ) :
+    ∃ r s', G.generate E X c s = .ok (r, s') ∧ r.bytes ≠ [] :=
+  G.generate_total E X c hE hmods hv hmin hmax s
+
+/-- in particular for fuzzer bytes, whatever they are -/
+theorem total_arbitrary (X : G.Ext) (c : Cfg) (hmods : X.mods ≠ []) (hv : c.version < 6)
+    (hmin : c.minOps ≤ 2 ^ 63) (hmax : c.maxOps ≤ 2 ^ 63) (input : List UInt8) :
+    ∃ r s', G.generate Arb.E X c input = .ok (r, s') ∧ r.bytes ≠ [] :=
+  total Arb.E X c Arb.lawful hmods hv hmin hmax input
+
+end C09
+
+/-! ## end to end: the exact generator under every lawful entropy source -/
+namespace EndToEnd
+
+/-- **Refinement** (`Proofs/GenRun.lean`): in a safe configuration everything the exact generator
+returns is the encoding of a run of the abstract generator; the drawn target respects the knobs. -/
+theorem refinement {σ} (E : Entropy σ) (X : G.Ext) (c : Cfg) (hs : SafeCfg c)
+    (hmin : c.minOps < 4294967296) (hmax : c.maxOps ≤ 4294967296) (hE : Lawful E) (s s' : σ)
+    (r : G.Result) (h : G.generate E X c s = .ok (r, s')) :
+    ∃ frame : Option Nat,
+      Run c (Gen.table c.version) (header c.version frame ++ r.instrs) ∧
+      r.bytes = (header c.version frame ++ r.instrs).flatMap Enc.encode ∧
+      (frame.isSome = r.framed) ∧ (∀ n, frame = some n → n = (r.instrs.flatMap Enc.encode).length) ∧
+      c.minOps ≤ r.target ∧ (r.target < c.maxOps ∨ (c.maxOps ≤ c.minOps ∧ r.target = c.minOps)) ∧
+      r.bodyLen ≤ r.target :=
+  G.generate_run E X c hs hmin hmax hE s s' r h
+
+/-- **C01 + C02 + C03 + C05 + C10 for every lawful entropy source.**  Safe configuration, protocol
+0–5, opcode budget below 2^32: the instruction list the generator writes (header included) is
+accepted by the reference machine with no stack, memo or operand-kind violation, uses only
+opcodes of the protocol, has the right header and respects the opt-in flags. -/
+theorem safe_output_ok {σ} (E : Entropy σ) (X : G.Ext) (c : Cfg) (hs : SafeCfg c) (hv : c.version < 6)
+    (hmin : c.minOps < 4294967296) (hmax : c.maxOps ≤ 4294967296) (hE : Lawful E) (s s' : σ)
+    (r : G.Result) (h : G.generate E X c s = .ok (r, s')) :
+    ∃ frame : Option Nat,
+      let is := header c.version frame ++ r.instrs
+      r.bytes = is.flatMap Enc.encode ∧
+      Spec.stackOk is = true ∧ Spec.memoOk is = true ∧ Spec.typedOk is = true ∧
+      Spec.opsInProto c.version is = true ∧ Spec.headerOk c.version is = true ∧
+      Spec.optinOk c.allowExt c.allowBuf is = true := by
+  obtain ⟨frame, hrun, hbytes, _⟩ := refinement E X c hs hmin hmax hE s s' r h
+  exact ⟨frame, hbytes, C01.accepted c hs.1 _ _ hrun, C02.memo_ok c hs.1 _ _ hrun,
+    C03.typed_ok c hs.1 _ _ hrun, C05.ops_in_proto c hv _ hrun, C05.header_ok c _ hrun,
+    C10.optin c _ _ hrun⟩
+
+end EndToEnd
+
+namespace C11
+/-- **C11 (target).**  For every lawful entropy source the drawn number of body opcodes `T`
+satisfies `min ≤ T`, and `T < max` or (`max ≤ min` and `T = min`); the body writes at most `T`
+instructions (exactly one per iteration unless an emission writes nothing — the payload-length
+guards, shown never to trip on real runs by S2/S3). -/
+theorem target_bounds {σ} (E : Entropy σ) (X : G.Ext) (c : Cfg) (hs : SafeCfg c)
+    (hmin : c.minOps < 4294967296) (hmax : c.maxOps ≤ 4294967296) (hE : Lawful E) (s s' : σ)
+    (r : G.Result) (h : G.generate E X c s = .ok (r, s')) :
+    c.minOps ≤ r.target ∧ (r.target < c.maxOps ∨ (c.maxOps ≤ c.minOps ∧ r.target = c.minOps)) ∧
+    r.bodyLen ≤ r.target := by
+  obtain ⟨_, _, _, _, _, h1, h2, h3⟩ := EndToEnd.refinement E X c hs hmin hmax hE s s' r h
+  exact ⟨h1, h2, h3⟩
+end C11
+
 end PFV
